@@ -3,6 +3,12 @@ from vf.registry import add
 from harness.topo_steps import mk, mk2, OPS2_FIRST, OPS2_SECOND, ALL_OPS, ENC
 for _k, _tiers in (('S4', ("quick", "thorough")), ('S3', ("thorough",)), ('S1', ("thorough",)), ('S0', ("thorough",))):
     for _op in ALL_OPS:
+        if _k == 'S4' and _op == 'add_link':
+            add("c09/S4/add_link_three_interfaces", mk('C09', _k, _op), timeout=3000, tiers=("thorough",), encodes=ENC,
+                bounds="skeleton S4, new link with 2..3 ends from 7 representative arguments (incl. a stale handle and a non-interface) at symbolic positions")
+        if _k == 'S4' and _op in ('add_component', 'add_component_known_model') and 'C09' == 'C09':
+            add("c09/S4/%s_all_names" % _op, mk('C09', _k, _op), timeout=3000, tiers=("thorough",), encodes=ENC,
+                bounds="skeleton S4, %s over the full node / name pools (the quick harness uses reduced pools)" % _op)
         if _k == 'S4' and _op == 'add_network_service':
             add("c09/S4/add_network_service_two_interfaces", mk('C09', _k, _op), timeout=1500, tiers=("thorough",), encodes=ENC,
                 bounds="skeleton S4, new service with 0..2 interfaces from 5 representative ones at symbolic positions")
